@@ -281,18 +281,21 @@ def run(m, rep, tier):
     n10 = rep.rule('N10', 'the unlink primitive re-points the tail at the predecessor when the node it removes is the last one', floor=1)
     n_prim = 0
     for f in fns:
-        if len(f.args) != 2:
-            continue
-        # e->n := (old e->n)->n  : unlinks the node after parameter 1
+        # e->n := (old e->n)->n  : unlinks the node after one of its (node) parameters, whichever position that has
         unl = []
+        prm = None
         for s2 in link_stores(f):
             a = resolve_addr(f, s2.o[1])
             v = f.get(strip_bitcasts(f, s2.o[0])) if isinstance(s2.o[0], str) else None
-            if strip_bitcasts(f, a.root) == '$1' and v is not None and v.op == 'load':
+            ar = strip_bitcasts(f, a.root) if isinstance(a.root, str) else None
+            if isinstance(ar, str) and ar.startswith('$') and ar[1:].isdigit() and int(ar[1:]) < len(f.args) and \
+                    NODE in (f.args[int(ar[1:])].get('ty') or '') and v is not None and v.op == 'load':
                 b = resolve_addr(f, v.o[0])
                 bi = f.get(strip_bitcasts(f, b.root)) if isinstance(b.root, str) else None
-                if b.fsteps[-1:] == ((NODE, 'n'),) and bi is not None and bi.op == 'load' and strip_bitcasts(f, resolve_addr(f, bi.o[0]).root) == '$1':
+                if b.fsteps[-1:] == ((NODE, 'n'),) and bi is not None and bi.op == 'load' and strip_bitcasts(f, resolve_addr(f, bi.o[0]).root) == ar \
+                        and resolve_addr(f, bi.o[0]).fsteps[-1:] == ((NODE, 'n'),):
                     unl.append((s2, bi))
+                    prm = ar
         if not unl:
             continue
         n_prim += 1
@@ -300,7 +303,7 @@ def run(m, rep, tier):
         pv = Prover(f)
         ok = False
         for ts in tail_stores(f):
-            if strip_bitcasts(f, ts.o[0]) != '$1':
+            if strip_bitcasts(f, ts.o[0]) != prm:
                 continue
             # ... under "the removed node was the tail" (tail == removed) or "the removed node had no successor"
             for (op, x, y) in pv.facts_at(ts):
